@@ -53,6 +53,7 @@ class mapper(object):
         self.__map = generation()
         self.__map.lastw = 0
         self.__map.delayed = None
+        self.__map.endian = {}
         self.__Mem = MemoryMap()
         self.conds = []
         self.cur = cur
@@ -252,7 +253,7 @@ class mapper(object):
         return r[0 : k.size]
 
     # define image v of antecedent k:
-    def __setitem__(self, k, v):
+    def __setitem__(self, k, v, endian=None):
         if k._is_ptr:
             loc = k
         else:
@@ -269,13 +270,17 @@ class mapper(object):
             raise ValueError("memory location slc is not supported")
         elif loc._is_ptr:
             r = v
-            oldr = self.__map.get(loc, None)
-            if oldr is not None and oldr.size > r.size:
-                r = composer([r, oldr[r.size : oldr.size]])
             if k._is_mem:
                 endian = k.endian
-            else:
+            elif endian is None:
                 endian = 1
+            oldr = self.__map.get(loc, None)
+            if oldr is not None and oldr.size > r.size:
+                if endian == -1:
+                    # big endian: the narrower value covers the most significant bytes
+                    r = composer([oldr[0 : oldr.size - r.size], r])
+                else:
+                    r = composer([r, oldr[r.size : oldr.size]])
             self._Mem_write(loc, r, endian)
             if conf.Cas.memtrace or not conf.Cas.noaliasing:
                 # if we assume that aliasing may exists, we
@@ -283,6 +288,7 @@ class mapper(object):
                 # in the mapper:
                 self.__map.lastw = len(self.__map) + 1 #this is O(1) AFAIK...
                 self.__map[loc] = r
+                self.__map.endian[loc] = endian
         else:
             r = self.R(loc)
             if r._is_reg:
@@ -339,9 +345,10 @@ class mapper(object):
                 raise ValueError
             mm.conds.append(cc)
         for loc, v in self:
+            endian = self.__map.endian.get(loc, 1)
             if loc._is_ptr:
                 loc = m(loc)
-            mm[loc] = m(v)
+            mm.__setitem__(loc, m(v), endian)
         return mm
 
     def rcompose(self, m):
@@ -360,9 +367,10 @@ class mapper(object):
                 raise ValueError
             mm.conds.append(cc)
         for loc, v in self:
+            endian = self.__map.endian.get(loc, 1)
             if loc._is_ptr:
                 loc = m(loc)
-            mm[loc] = m(v)
+            mm.__setitem__(loc, m(v), endian)
         return mm
 
     def __lshift__(self, m):
